@@ -148,8 +148,9 @@ def handle (toks : List String) : String :=
     match buf d, dofs.toNat?, len.toNat? with
     | some (dv, dn), some dofs, some len =>
       if dofs + len > 8 * dn then "ERR:oob" else
-      toHex (natToBytes dn (packBits ((List.range (8 * dn)).map (fun i =>
-        if dofs ≤ i ∧ i < dofs + len then !(dv.testBit i) else dv.testBit i))))
+      check (toHex (natToBytes dn (applyUnaryOp (fun a => (2 ^ 64 - 1) ^^^ (a % 2 ^ 64)) dv dofs len)))
+        (toHex (natToBytes dn (packBits ((List.range (8 * dn)).map (fun i =>
+          if dofs ≤ i ∧ i < dofs + len then !(dv.testBit i) else dv.testBit i)))))
     | _, _, _ => "bad-op"
   | ["builder", ops] =>
     match builderRun ops with
